@@ -133,9 +133,12 @@ pub fn run(part: &mut Part) {
                     ),
                     all_seeds_prof(a_full(), 2, q),
                     prof("queues a,b created x special payload sizes", vec![seed_ab()], a_sizes(), if q { 3 } else { 4 }),
+                    prof("sliding window of records longer than a block x (appends around a block, truncates)", sliding_window_seeds(), a_window(), if q { 3 } else { 5 }),
                 ]
             } else {
-                vec![prof("queues a,b created x special payload sizes", vec![seed_ab()], a_sizes(), if q { 2 } else { 3 }), prof(
+                vec![prof("queues a,b created x special payload sizes", vec![seed_ab()], a_sizes(), if q { 2 } else { 3 }),
+                    prof("sliding window of 33-50 KB records x (appends around 32 KiB, truncates)", sliding_window_seeds(), a_window(), if q { 2 } else { 4 }),
+                    prof(
                     "empty+structural x A_full",
                     {
                         let mut s = vec![seed_empty()];
